@@ -51,8 +51,8 @@ from . import (
     NotStoreError,
     OutOfSpaceError,
     Store,
-    open_by_content_type,
     open_by_extension,
+    open_for_import,
 )
 from .config import FILENAME as CONFIG_FILENAME
 from .config import CollectionMetadata, FileBasedCollectionMetadata
@@ -329,10 +329,7 @@ class GitStore(Store):
           DuplicateUidError: when the uid already exists
         Returns: etag
         """
-        if content_type is None:
-            fi = open_by_extension(data, name, self.extra_file_handlers)
-        else:
-            fi = open_by_content_type(data, content_type, self.extra_file_handlers)
+        fi = open_for_import(data, name, content_type, self.extra_file_handlers)
         if name is None:
             name = str(uuid.uuid4())
             extension = MIMETYPES.guess_extension(content_type)
@@ -346,7 +343,7 @@ class GitStore(Store):
         self._check_duplicate(uid, name, replace_etag)
         if message is None:
             try:
-                old_fi = self.get_file(name, content_type, replace_etag)
+                old_fi = self.get_file(name, fi.content_type, replace_etag)
             except KeyError:
                 old_fi = None
             message = "\n".join(fi.describe_delta(name, old_fi))
